@@ -5,7 +5,7 @@ from vx.unit import Unit
 from vx.extract import C
 from .common import replay_scripts
 
-PROPS = ['C10', 'C02', 'C03']
+PROPS = ['C10', 'C02', 'C03', 'C16']
 HEADER = 'use vstd::prelude::*;\nuse vstd::std_specs::iter::IteratorSpec;\nverus! {\n'
 FOOTER = '\n} // verus!\nfn main() {}\n'
 OPAQUE = ('SimpleCommand', 'CompoundCommand', 'FunctionDefinition', 'IoRedirect')
@@ -14,6 +14,7 @@ NEW = 'new_events(old(shell).log(), %s.log())'
 
 def build(repo, findings):
     u = Unit('U66', 'command dispatch: a compound command\'s redirections left to right, then its body; a failing one fails the command, not the script', repo, PROPS, safety_props=[])
+    u.prop_alias = {'C02': ['C16']}      # an exit request raised here (errexit on a failing redirection) is what the EXIT trap then sees: as for the executors U4a-U4j
     interp = u.source('brush-core/src/interp.rs')
     ast = u.source('brush-parser/src/ast.rs')
     u.raw(HEADER)
